@@ -14,7 +14,11 @@ from harness import core, gen_npz
 from harness.core import Prop, outcome
 
 BUILTIN = ["Equal", "x", "1/x", "1/(x^2)", "y", "1/y", "1/(y^2)"]
-DTYPES = ["<f8", "<f8", "<f8", "<f4", "<f2", "<i8", "<i4", "<i2", "<i1", "<u8", "<u4", "<u2", "<u1", ">f8", ">i4"]
+DTYPES = ["<f8", "<f8", "<f8", "<f4", "<f2", "<i8", "<i4", "<i2", "<i1", "<u8", "<u4", "<u2", "<u1", ">f8", ">i4",
+          ">f4", ">i2", ">u2", ">i8", ">u4", ">f2"]
+# memory layouts of the structured image handed to Laser(): C order, Fortran order, a strided view into a larger
+# array, a view with negative strides (values and dtypes are the same; only the bytes in memory differ)
+LAYOUTS = ["C", "C", "C", "F", "strided", "reversed"]   # generated: one of the last three for a fifth of the lasers
 
 # ----------------------------------------------------------------------------- encodings
 
@@ -58,8 +62,11 @@ def rnd_float_tok(rng, allow_nan=False) -> int:
             return t
 
 
-def rnd_pos_float(rng) -> float:
+def rnd_pos_float(rng, extreme=True) -> float:
+    """`extreme=False` for an SRR scan time: warm-up seconds = samples x scan time must stay finite"""
     r = rng.random()
+    if r < 0.03 and extreme:   # the ends of the positive range: smallest subnormal, smallest normal, largest finite, huge, tiny
+        return rng.choice([5e-324, 2.0 ** -1022, 1.7976931348623157e308, 1e300, 1e-300, 2.0 ** 52 + 1.0, 1.0 + 2.0 ** -52])
     if r < 0.3:
         return rng.choice([35.0, 140.0, 0.25, 1.0, 10.0, 0.1, 0.3, 1 / 3, 2.5, 1e-3, 7.0, 1e3])
     if r < 0.6:
@@ -110,9 +117,20 @@ def uint_dtype(dt: np.dtype) -> np.dtype:
     return np.dtype(dt.byteorder.replace("=", "<").replace("|", "<") + "u" + str(dt.itemsize)) if dt.itemsize > 1 else np.dtype("u1")
 
 
-def build_layer(elements, shape, li):
+def build_layer(elements, shape, li, layout="C"):
+    elements = [{**e, "dtype": e["dtypes"][li]} if "dtypes" in e else e for e in elements]   # per-layer dtypes (targeted only)
     dt = np.dtype([(e["name"], e["dtype"]) for e in elements])
-    arr = np.zeros(tuple(shape), dtype=dt)
+    shape = tuple(shape)
+    if layout == "F":
+        arr = np.zeros(shape, dtype=dt, order="F")
+    elif layout == "strided" and len(shape) == 2:
+        arr = np.zeros((2 * shape[0] + 1, 3 * shape[1] + 2), dtype=dt)[1::2, 2::3][: shape[0], : shape[1]]
+    elif layout == "reversed" and len(shape) == 2:
+        arr = np.zeros(shape, dtype=dt)[::-1, ::-1]
+    else:
+        arr = np.zeros(shape, dtype=dt)
+    if arr.shape != shape:
+        raise core.InternalError("layout view has the wrong shape")
     for e in elements:
         fdt = np.dtype(e["dtype"])
         raw = np.array(e["bits"][li], dtype=uint_dtype(fdt)).view(fdt).reshape(shape)
@@ -156,10 +174,191 @@ def build_laser(case):
     cal = {els[i]["name"]: build_cal(c) for i, c in case["cals"]}
     info = {k: v for k, v in case["info"]}
     config = build_config(case["config"])
+    lay = case.get("layout", "C")
     if case["cls"] == "srr":
-        layers = [build_layer(els, sh, li) for li, sh in enumerate(case["shapes"])]
+        layers = [build_layer(els, sh, li, lay) for li, sh in enumerate(case["shapes"])]
         return SRRLaser(layers, calibration=cal, config=config, info=info)
-    return Laser(build_layer(els, case["shapes"][0], 0), calibration=cal, config=config, info=info)
+    return Laser(build_layer(els, case["shapes"][0], 0, lay), calibration=cal, config=config, info=info)
+
+
+# ----------------------------------------------------------------------------- operations on the real object
+
+
+def apply_op_real(obj, op):
+    """one call of a public mutator (or one assignment to a public attribute) on the pewlib object"""
+    k = op["op"]
+    if k == "cal_set":
+        obj.calibration[op["key"]] = build_cal(op["cal"])
+    elif k == "cal_pop":
+        obj.calibration.pop(op["key"])
+    elif k == "cal_move_end":
+        c = obj.calibration.pop(op["key"])
+        obj.calibration[op["key"]] = c
+    elif k == "cal_reorder":
+        obj.calibration = {n: obj.calibration[n] for n in op["order"]}
+    elif k == "cal_edit":
+        c = obj.calibration[op["key"]]
+        e = op["edit"]
+        w = e["what"]
+        if w in ("intercept", "gradient"):
+            setattr(c, w, tokf(e["value"]))
+        elif w == "unit":
+            c.unit = e["value"]
+        elif w in ("rsq", "error"):
+            setattr(c, w, None if e["value"] is None else tokf(e["value"]))
+        elif w == "points":
+            c.points = np.array([[tokf(a), tokf(b)] for a, b in e["value"]], dtype=np.float64).reshape(-1, 2)
+        elif w == "weighting":
+            c.weights = e["value"]
+        elif w == "custom":
+            c.weights = (e["name"], np.array([tokf(t) for t in e["value"]], dtype=np.float64))
+        else:
+            raise core.InternalError("bad calibration edit " + w)
+    elif k == "info_set":
+        obj.info[op["key"]] = op["value"]
+    elif k == "info_pop":
+        obj.info.pop(op["key"])
+    elif k == "info_assign":
+        obj.info = {a: b for a, b in op["items"]}
+    elif k == "cfg":
+        w = op["what"]
+        if w in ("spotsize", "speed", "scantime", "spotsize_y"):
+            if not hasattr(obj.config, w):
+                raise AttributeError(w)
+            setattr(obj.config, w, tokf(op["value"]))
+        elif w == "warmup":
+            obj.config.warmup = tokf(op["value"])
+        elif w == "offsets":
+            obj.config.subpixel_offsets = np.array([tuple(o) for o in op["value"]]) if op.get("as_array") else [tuple(o) for o in op["value"]]
+        elif w == "equal_offsets":
+            obj.config.set_equal_subpixel_offsets(int(op["value"]))
+        else:
+            raise core.InternalError("bad config operation " + w)
+    elif k == "cfg_assign":
+        obj.config = build_config(op["config"])
+    elif k == "rename":
+        obj.rename({a: b for a, b in op["names"]})
+    elif k == "add":
+        fdt = np.dtype(op["dtype"])
+        layers = list(obj.data) if type(obj).__name__ == "SRRLaser" else [obj.data]
+        arrs = [np.array(b, dtype=uint_dtype(fdt)).view(fdt).reshape(l.shape) for b, l in zip(op["bits"], layers)]
+        cal = None if op["cal"] is None else build_cal(op["cal"])
+        obj.add(op["name"], arrs if type(obj).__name__ == "SRRLaser" else arrs[0], calibration=cal)
+    elif k == "remove":
+        obj.remove(op["names"][0] if op.get("as_str") and len(op["names"]) == 1 else list(op["names"]))
+    elif k == "data_reorder":
+        def reorder(a):
+            new = np.empty(a.shape, dtype=[(n, a.dtype[n]) for n in op["order"]])
+            for n in op["order"]:
+                new[n] = a[n]
+            return new
+        if type(obj).__name__ == "SRRLaser":
+            obj.data = [reorder(a) for a in obj.data]
+        else:
+            obj.data = reorder(obj.data)
+    else:
+        raise core.InternalError("bad operation " + k)
+
+
+def read_real(obj, what):
+    """read-only accesses between two saves (they must not change what the next save writes)"""
+    with warnings.catch_warnings():
+        warnings.simplefilter("ignore")
+        try:
+            if what == "to_array":
+                obj.config.to_array()
+                for c in obj.calibration.values():
+                    c.to_array()
+            elif what == "offsets":
+                getattr(obj.config, "subpixel_offsets", None)
+                getattr(obj.config, "warmup", None)
+            elif what == "extent":
+                obj.extent  # noqa: B018
+                obj.config.get_pixel_width(), obj.config.get_pixel_height()
+            elif what == "get":
+                if type(obj).__name__ == "SRRLaser":   # a single layer: the reconstruction can be arbitrarily large
+                    obj.get(obj.elements[0], calibrate=True, layer=0)
+                    obj.get(layer=1)
+                else:
+                    obj.get(obj.elements[0], calibrate=True)
+                    obj.get()
+            elif what == "weights":
+                for c in obj.calibration.values():
+                    c.weights  # noqa: B018
+                    str(c)
+        except Exception:  # noqa: BLE001  a read that fails (e.g. extent of an odd SRR config) is of no concern here
+            pass
+
+
+def tkn(t):
+    return [1 if math.isnan(tokf(t)) else 0, t]
+
+
+def enc_cal(c):
+    """a calibration of the case (constructor arguments) as the model's `Cal`"""
+    custom = not isinstance(c["weights"], str)
+    return {"intercept": tkn(c["intercept"]), "gradient": tkn(c["gradient"]), "unit": cps(c["unit"]),
+            "rsq": None if c["rsq"] is None else tkn(c["rsq"]), "error": None if c["error"] is None else tkn(c["error"]),
+            "points": [[tkn(a), tkn(b)] for a, b in c["points"]],
+            "weighting": cps(c["weights"]["name"] if custom else c["weights"]),
+            "weights": [tkn(v) for v in c["weights"]["values"]] if custom else []}
+
+
+def enc_cfg_args(c):
+    if c["class"] == "raster":
+        return {"class": "raster", "spotsize": tkn(c["spotsize"]), "speed": tkn(c["speed"]), "scantime": tkn(c["scantime"])}
+    if c["class"] == "spot":
+        return {"class": "spot", "spotsize": tkn(c["spotsize"]), "spotsize_y": tkn(c["spotsize_y"])}
+    return {"class": "srr", "spotsize": tkn(c["spotsize"]), "speed": tkn(c["speed"]), "scantime": core.rat(tokf(c["scantime"])),
+            "warmup": core.rat(tokf(c["warmup"])), "offsets": [[int(a), int(b)] for a, b in c["offsets"]]}
+
+
+def enc_op(op):
+    """an operation of the case in the driver's encoding (strings as code points, floats as tokens / exact rationals)"""
+    k = op["op"]
+    if k == "cal_set":
+        return {"op": k, "key": cps(op["key"]), "cal": enc_cal(op["cal"])}
+    if k in ("cal_pop", "cal_move_end", "info_pop"):
+        return {"op": k, "key": cps(op["key"])}
+    if k in ("cal_reorder", "data_reorder"):
+        return {"op": k, "order": [cps(n) for n in op["order"]]}
+    if k == "cal_edit":
+        e = op["edit"]
+        w = e["what"]
+        if w in ("intercept", "gradient"):
+            ed = {"what": w, "value": tkn(e["value"])}
+        elif w in ("unit", "weighting"):
+            ed = {"what": w, "value": cps(e["value"])}
+        elif w in ("rsq", "error"):
+            ed = {"what": w, "value": None if e["value"] is None else tkn(e["value"])}
+        elif w == "points":
+            ed = {"what": w, "value": [[tkn(a), tkn(b)] for a, b in e["value"]]}
+        else:
+            ed = {"what": "custom", "name": cps(e["name"]), "value": [tkn(t) for t in e["value"]]}
+        return {"op": k, "key": cps(op["key"]), "edit": ed}
+    if k == "info_set":
+        return {"op": k, "key": cps(op["key"]), "value": cps(op["value"])}
+    if k == "info_assign":
+        return {"op": k, "items": [[cps(a), cps(b)] for a, b in op["items"]]}
+    if k == "cfg":
+        w = op["what"]
+        if w in ("spotsize", "speed", "scantime", "spotsize_y"):
+            return {"op": k, "what": w, "value": tkn(op["value"])}
+        if w == "warmup":
+            return {"op": k, "what": w, "value": core.rat(tokf(op["value"]))}
+        if w == "offsets":
+            return {"op": k, "what": w, "value": [[int(a), int(b)] for a, b in op["value"]]}
+        return {"op": k, "what": w, "value": int(op["value"])}
+    if k == "cfg_assign":
+        return {"op": k, "config": enc_cfg_args(op["config"])}
+    if k == "rename":
+        return {"op": k, "names": [[cps(a), cps(b)] for a, b in op["names"]]}
+    if k == "add":
+        return {"op": k, "name": cps(op["name"]), "dtype": cps(np.dtype(op["dtype"]).str), "vals": op["bits"],
+                "cal": None if op["cal"] is None else enc_cal(op["cal"])}
+    if k == "remove":
+        return {"op": k, "names": [cps(n) for n in op["names"]]}
+    raise core.InternalError("bad operation " + k)
 
 
 # ----------------------------------------------------------------------------- canonical descriptions
@@ -191,7 +390,8 @@ def desc_config(cfg):
     if name == "SRRConfig":
         return {"class": "srr", "spotsize": ftok(cfg.spotsize), "speed": ftok(cfg.speed),
                 "scantime": core.rat(float(cfg.scantime)), "warmup_n": int(cfg._warmup),
-                "sub_size": int(cfg._subpixel_size), "sub_offsets": [int(o) for o in np.asarray(cfg._subpixel_offsets).tolist()]}
+                "sub_size": int(cfg._subpixel_size), "sub_offsets": [int(o) for o in np.asarray(cfg._subpixel_offsets).tolist()],
+                "offsets_public": [[int(a), int(b)] for a, b in np.asarray(cfg.subpixel_offsets).reshape(-1, 2).tolist()]}
     return {"class": name}
 
 
@@ -278,26 +478,45 @@ class C01(Prop):
     anchored = ["src/pewlib/io/npz.py", "src/pewlib/calibration.py", "src/pewlib/config.py", "src/pewlib/srr/config.py",
                 "src/pewlib/laser.py", "src/pewlib/srr/srr.py"]
     cases = {"quick": 600, "thorough": 12000}
-    rule = ("random Laser / spot / SRR lasers (equal-shape layers, shapes from 1x1, 1-8 elements with unicode names incl. tabs, "
-            "combining marks, non-BMP, >32 chars; 15 field dtypes; NaN payloads/inf/-0.0 data), calibrations with 0..6 points, "
+    rule = ("random Laser / spot / SRR lasers (equal-shape layers, shapes from 1x1, 3% up to 64x40; 1-8 elements with unicode names "
+            "incl. tabs, combining marks, non-BMP, >32 chars; 21 field dtypes incl. six non-native byte orders; C-ordered, "
+            "Fortran-ordered, strided and negative-stride images (a fifth of the lasers); NaN payloads/inf/-0.0 data), calibrations "
+            "with 0..6 (3%: 20-50) points, "
             "half-NaN rows, all seven built-in weightings and custom weights, differing lengths; lasers without any calibration "
             "point whose calibrations still carry unit / weighting (built-in, custom with no weights) / rsq / error, identity "
             "and fitted lines mixed (15% of the full-size cases); element names around separator characters (_ - . space : / "
             "| ...; a name continuing another element's name past the separator, names sharing the text before it; 25% of "
             "names, in every stream incl. the 0.6/0.7 files); info dicts incl. empty "
-            "keys/values and keys colliding after tab replacement, inexact config floats, warm-up, sub-pixel offsets; "
+            "keys/values, keys colliding after tab replacement, 20-40 entries, keys of 100-300 and values of 500-3000 characters; "
+            "inexact config floats, warm-up, sub-pixel offsets; "
+            "CALIBRATION DICT ORDER: in a third of the round-trip / layout / cross-class cases with >= 2 elements the calibration "
+            "dict lists the elements in another order than the data (entries popped and re-inserted, the dict reassigned in a "
+            "shuffled or reversed order, an entry replaced by a new calibration, the image replaced by one with reordered "
+            "fields, dict manipulation mixed with remove / add), every element carrying a calibration of its own, no two equal; "
+            "HISTORIES (19% of the cases + 200 targeted): constructor -> [calls] -> save+load -> calls -> save+load [-> again], "
+            "optionally going on with the loaded object; the calls are every public mutator: calibration dict (set, pop, "
+            "re-insert, reassign), in-place edits of a Calibration (intercept, gradient, unit, rsq, error, points, weighting, "
+            "custom weights), info (set, pop, reassign), config attributes, the warmup and subpixel_offsets setters, "
+            "set_equal_subpixel_offsets, a new config object, add / remove / rename (swaps included), the image replaced; "
+            "read-only accesses in between (to_array, subpixel_offsets, extent, get, weights); each save to the same or another "
+            "file, handed over as str or Path, names that np.savez completes with '.npz' ('', '.dat', '.NPZ', '.npz.npz'); "
+            "every load is judged against the specification of the state the MODEL tracked from the calls; "
             "real npz.save -> npz.load chains of length 1-4 and harness-written 0.6/0.7 layout files (current or legacy class "
             "names; declared versions with fewer / more components than 0.6.0, non-numeric tails beyond the compared "
-            "components, non-numeric compared components, older than 0.6.0); only the loaded object is observed. "
+            "components, non-numeric compared components, older than 0.6.0), half of them also loaded, re-saved with the "
+            "current save and loaded again; only the loaded object is observed. "
             "Compared with the model only (outside the quantifier, hyp=false): lasers without elements (save raises), files "
             "saved by npz.save whose header class name was replaced by another class / an unknown one (Config.from_array "
             "of an SRR array, SRRConfig.from_array of a raster array, ...), old-layout files declaring a version of another "
-            "generation. non-trivial = every case (each has >=1 named feature); distinct by canonical case hash")
+            "generation, SRR lasers with a non-native field (stacked native: known finding). "
+            "non-trivial = every case (each has >=1 named feature); distinct by canonical case hash")
     trusted = [
         "np.savez_compressed/np.load round-trip arrays bit-exactly; NumPy U storage strips trailing NULs and truncates to the field width",
         "harness/gen_npz.py writes the 0.6 / 0.7 layouts as the fixtures in tests/data/npz show them",
         "SRR warm-up: the float evaluation of round((n*scantime)/scantime) is one instance of the rounding function `fl` of theorem config_roundtrip (hypothesis hfl: each operation within relative error 2^-53; helper lemma warmup_robust in PewProofs/Npz.lean); the driver evaluates the exact instance fl = id",
-        "the abstract description of the laser handed to save is read from the real object (dict orders, SRRConfig._warmup/_subpixel_size/_subpixel_offsets)",
+        "round-trip / layout / cross-class streams: the abstract description of the freshly CONSTRUCTED laser is read from the real object (SRRConfig._warmup/_subpixel_size/_subpixel_offsets); every call made after construction (calibration-dict reordering, histories) is applied by the model, never read back",
+        "history stream: the initial state is the model's constructor (mkLaser, SRR.mk' evaluated exactly); a warm-up whose exact quotient seconds/scantime is within 2^-10 of a half-integer or above 2^40 is counted undetermined (theorems warmup_setter_robust, srr_constructor_robust: otherwise float and exact evaluation agree)",
+        "the file np.savez writes for a name that does not end in '.npz' is name + '.npz' (documented in npz.save); Path.stem / Path.resolve of the loaded path are computed by the harness with pathlib",
     ]
     assumptions = [
         "outside the quantifier (hyp=false: no specification, the implementation is compared with the model only): "
@@ -308,7 +527,9 @@ class C01(Prop):
         "counted as undetermined (the model answers `Unmodelled`): SRRConfig.from_array of a spot array or of a raster "
         "array whose scan time is zero / not finite",
         "info and calibration dicts are compared as mappings (sorted by key): Python dict equality ignores order",
-        "every generation of a chain is written to the same path (File Path is the path loaded from)",
+        "every generation of a chain is written to the same path (File Path is the path loaded from); histories also write to other paths",
+        "a call of a history that raises on the real object or that the model declines (only reachable by shrinking) makes the case undetermined; only the loads are judged",
+        "not generated (outside the quantifier): calibration dicts whose key set differs from the element names, custom weights that are not one-dimensional, images with zero rows, SRR layers of different dtypes (see notes/EC01.md), width 0 / empty offset lists",
     ]
 
     # ------------------------------------------------------------------ generator
@@ -350,7 +571,7 @@ class C01(Prop):
                 return s
 
     def gen_cal(self, rng, npoints=None):
-        n = rng.choice([0, 0, 1, 2, 3, 3, 4, 5, 6]) if npoints is None else npoints
+        n = (rng.choice([0, 0, 1, 2, 3, 3, 4, 5, 6]) if rng.random() < 0.97 else rng.randint(20, 50)) if npoints is None else npoints
         points = []
         for _ in range(n):
             a, b = rnd_float_tok(rng), rnd_float_tok(rng)
@@ -414,16 +635,19 @@ class C01(Prop):
         r = rng.random()
         if r < 0.12:
             return []
-        n = rng.choice([1, 1, 2, 3, 4, 6])
+        n = rng.choice([1, 1, 2, 3, 4, 6]) if rng.random() < 0.95 else rng.randint(20, 40)
         d = {}
         for _ in range(n):
             r = rng.random()
             if r < 0.3:
                 k = rng.choice(["Name", "File Path", "File Version", "File\tPath", "File\tVersion", "Na\tme", "", "Operator",
                                 "a\tb", "a b", "\t", " "])
+            elif r < 0.33:
+                k = rnd_str(rng, 100, 300, odd=0.2, nul_end_ok=True)
             else:
                 k = rnd_str(rng, 0, 8, odd=0.35, nul_end_ok=True)
-            v = rng.choice(["", "x"]) if rng.random() < 0.2 else rnd_str(rng, 0, 12, odd=0.35)
+            r = rng.random()
+            v = rng.choice(["", "x"]) if r < 0.2 else rnd_str(rng, 500, 3000, odd=0.2) if r < 0.24 else rnd_str(rng, 0, 12, odd=0.35)
             d[k] = v
         if rng.random() < 0.25:  # keys that collide only after tabs become spaces
             base = rnd_str(rng, 1, 3, odd=0.0)
@@ -455,7 +679,7 @@ class C01(Prop):
                     "scantime": core.tok(rnd_pos_float(rng))}
         if cls == "spot":
             return {"class": "spot", "spotsize": core.tok(rnd_pos_float(rng)), "spotsize_y": core.tok(rnd_pos_float(rng))}
-        scantime = rnd_pos_float(rng)
+        scantime = rnd_pos_float(rng, extreme=False)
         r = rng.random()
         if r < 0.2:
             warmup = 0.0
@@ -463,6 +687,8 @@ class C01(Prop):
             warmup = rng.randint(0, 200) * scantime
         else:
             warmup = rng.uniform(0, 60.0)
+        if not math.isfinite(warmup):   # 200 acquisitions of the largest finite scan time
+            warmup = 0.0
         k = nlayers if rng.random() < 0.7 else rng.randint(1, 5)
         offsets = []
         for _ in range(k):
@@ -471,9 +697,253 @@ class C01(Prop):
         return {"class": "srr", "spotsize": core.tok(rnd_pos_float(rng)), "speed": core.tok(rnd_pos_float(rng)),
                 "scantime": core.tok(scantime), "warmup": core.tok(warmup), "offsets": offsets}
 
+    # ------------------------------------------------------------------ operations between saves
+    def distinct_cals(self, rng, case):
+        """every element gets a calibration of its own and no two calibrations are equal: a calibration that lands on
+        another element is then always visible"""
+        have = {i for i, _ in case["cals"]}
+        cals = list(case["cals"])
+        empty = bool(cals) and all(len(c["points"]) == 0 for _, c in cals)
+        for i in range(len(case["elements"])):
+            if i not in have:
+                cals.append([i, self.gen_empty_cal(rng, rng.random() < 0.5) if empty else self.gen_cal(rng)])
+        seen = []
+        out = []
+        for i, c in cals:
+            while any(core.canon(c) == core.canon(d) for d in seen):
+                c = {**c, "intercept": rnd_float_tok(rng)}
+            seen.append(c)
+            out.append([i, c])
+        case["cals"] = out
+
+    def track(self, case):
+        """what the generator needs to know of the object to produce calls that are valid: element names in data
+        order, keys of the calibration dict in dict order, number of points and kind of weighting per key, info keys,
+        class and scan time of the configuration"""
+        names = [e["name"] for e in case["elements"]]
+        given = {names[i]: c for i, c in case["cals"]}
+        return {"names": list(names), "calkeys": list(names),
+                "npoints": {n: len(given[n]["points"]) if n in given else 0 for n in names},
+                "custom": {n: (n in given and not isinstance(given[n]["weights"], str)) for n in names},
+                "info": list(dict.fromkeys(k for k, _ in case["info"])), "cfg": case["config"]["class"],
+                "scantime": tokf(case["config"]["scantime"]) if case["config"]["class"] == "srr" else None,
+                "nlayers": len(case["shapes"]), "size": case["shapes"][0][0] * case["shapes"][0][1]}
+
+    def gen_order_ops(self, rng, st):
+        """operations after which the calibration dict lists the elements in another order than the data does"""
+        ks = st["calkeys"]
+        if len(ks) < 2:
+            return []
+        how = rng.choice(["move_end", "move_end", "reorder", "reorder", "pop_set", "data_reorder", "remove_add"])
+        ops = []
+        if how == "move_end":
+            for k in rng.sample(ks[:-1], rng.randint(1, max(1, len(ks) - 1))) if rng.random() < 0.7 else [ks[0]]:
+                ops.append({"op": "cal_move_end", "key": k})
+                st["calkeys"].remove(k)
+                st["calkeys"].append(k)
+        elif how == "reorder":
+            order = list(ks)
+            while order == ks:
+                rng.shuffle(order)
+            if rng.random() < 0.3:
+                order = list(reversed(ks))
+            ops.append({"op": "cal_reorder", "order": order})
+            st["calkeys"][:] = order
+        elif how == "pop_set":  # a calibration is taken out and a new one (a re-fit) is put in: it goes last
+            k = rng.choice(ks[:-1])
+            c = self.gen_cal(rng)
+            ops += [{"op": "cal_pop", "key": k}, {"op": "cal_set", "key": k, "cal": c}]
+            st["calkeys"].remove(k)
+            st["calkeys"].append(k)
+            st["npoints"][k] = len(c["points"])
+            st["custom"][k] = not isinstance(c["weights"], str)
+        elif how == "data_reorder":  # the image is replaced by one with its fields in another order
+            order = list(st["names"])
+            while order == st["names"]:
+                rng.shuffle(order)
+            ops.append({"op": "data_reorder", "order": order})
+            st["names"][:] = order
+        else:  # dict manipulation mixed with the element history: move an entry, remove another element, add it again
+            k = ks[0]
+            ops.append({"op": "cal_move_end", "key": k})
+            st["calkeys"].remove(k)
+            st["calkeys"].append(k)
+            if len(ks) > 2:
+                ops += self.gen_op(rng, st, only="remove")
+            ops += self.gen_op(rng, st, only="add")
+        return ops
+
+    def gen_op(self, rng, st, only=None):
+        """one call (sometimes two that belong together) of a public mutator, valid for the tracked state"""
+        kinds = ["cal_edit", "cal_edit", "cal_set", "info_set", "info_pop", "info_assign", "cfg", "cfg", "cfg", "cfg_assign",
+                 "rename", "add", "remove", "order", "order"]
+        if st["cfg"] == "srr":   # the SRR configuration has the most writers (two setters and a mutator besides the attributes)
+            kinds += ["cfg"] * 5
+        t = core.tok
+        for _ in range(50):
+            k = only or rng.choice(kinds)
+            ks, names = st["calkeys"], st["names"]
+            if k == "order":
+                ops = self.gen_order_ops(rng, st)
+                if ops:
+                    return ops
+            elif k == "cal_set":
+                key = rng.choice(ks)
+                c = self.gen_cal(rng)
+                st["npoints"][key], st["custom"][key] = len(c["points"]), not isinstance(c["weights"], str)
+                return [{"op": "cal_set", "key": key, "cal": c}]
+            elif k == "cal_edit":
+                key = rng.choice(ks)
+                w = rng.choice(["intercept", "gradient", "unit", "rsq", "error", "points", "weighting", "custom"])
+                if w in ("intercept", "gradient"):
+                    return [{"op": "cal_edit", "key": key, "edit": {"what": w, "value": rnd_float_tok(rng)}}]
+                if w == "unit":
+                    return [{"op": "cal_edit", "key": key, "edit": {"what": w, "value": rng.choice(["", "ppm", "µg/g", "cps", rnd_str(rng, 0, 32, odd=0.3)])}}]
+                if w in ("rsq", "error"):
+                    return [{"op": "cal_edit", "key": key, "edit": {"what": w, "value": None if rng.random() < 0.3 else rnd_float_tok(rng)}}]
+                if w == "weighting":
+                    st["custom"][key] = False
+                    return [{"op": "cal_edit", "key": key, "edit": {"what": w, "value": rng.choice(BUILTIN)}}]
+                c = self.gen_cal(rng)  # new points; custom weights have to follow
+                n = len(c["points"])
+                if w == "custom" or st["custom"][key]:
+                    name = rng.choice(["custom", "w", "1/σ²", rnd_str(rng, 1, 32, odd=0.3)])
+                    name = "custom" if name in BUILTIN else name
+                    ops = [] if (w == "custom" and st["npoints"][key] == n) else [{"op": "cal_edit", "key": key, "edit": {"what": "points", "value": c["points"]}}]
+                    if ops:
+                        st["npoints"][key] = n
+                    st["custom"][key] = True
+                    return ops + [{"op": "cal_edit", "key": key, "edit": {"what": "custom", "name": name,
+                                   "value": [rnd_float_tok(rng, allow_nan=True) for _ in range(st["npoints"][key])]}}]
+                st["npoints"][key] = n
+                return [{"op": "cal_edit", "key": key, "edit": {"what": "points", "value": c["points"]}}]
+            elif k == "info_set":
+                key = rng.choice(st["info"]) if st["info"] and rng.random() < 0.4 else rng.choice(["Name", "Operator", "a\tb", "k", "", rnd_str(rng, 0, 6, odd=0.3)])
+                if key not in st["info"]:
+                    st["info"].append(key)
+                return [{"op": "info_set", "key": key, "value": rng.choice(["", "v", "x\ty"]) if rng.random() < 0.3 else rnd_str(rng, 0, 10, odd=0.3)}]
+            elif k == "info_pop" and st["info"]:
+                key = rng.choice(st["info"])
+                st["info"].remove(key)
+                return [{"op": "info_pop", "key": key}]
+            elif k == "info_assign":
+                items = self.gen_info(rng)
+                st["info"] = list(dict.fromkeys(a for a, _ in items))
+                return [{"op": "info_assign", "items": items}]
+            elif k == "cfg":
+                cls = st["cfg"]
+                w = rng.choice({"raster": ["spotsize", "speed", "scantime"], "spot": ["spotsize", "spotsize_y"],
+                                "srr": ["spotsize", "speed", "scantime", "warmup", "warmup", "offsets", "offsets", "equal_offsets",
+                                        "equal_offsets", "equal_offsets"]}[cls])
+                if w == "warmup":
+                    s_ = st["scantime"]
+                    v = rng.randint(0, 200) * s_ if rng.random() < 0.6 else rng.uniform(0, 60.0)
+                    v = v if math.isfinite(v) else 0.0
+                    return [{"op": "cfg", "what": w, "value": t(v)}]
+                if w == "offsets":
+                    offs = []
+                    for _ in range(rng.choice([1, 2, 2, 3, 4])):
+                        den = rng.choice([1, 2, 2, 3, 4, 5, 6, 8, 12])
+                        offs.append([rng.randint(0, den), den])
+                    return [{"op": "cfg", "what": w, "value": offs, "as_array": rng.random() < 0.5}]
+                if w == "equal_offsets":
+                    return [{"op": "cfg", "what": w, "value": rng.choice([1, 2, 2, 3, 3, 4, 5, 8])}]
+                v = rnd_pos_float(rng, extreme=not (w == "scantime" and cls == "srr"))
+                if w == "scantime" and cls == "srr":
+                    st["scantime"] = v
+                return [{"op": "cfg", "what": w, "value": t(v)}]
+            elif k == "cfg_assign":
+                cls = "srr" if st["cfg"] == "srr" else rng.choice(["laser", "spot"])
+                cfg = self.gen_config(rng, cls, st["nlayers"])
+                st["cfg"] = cfg["class"]
+                st["scantime"] = tokf(cfg["scantime"]) if cfg["class"] == "srr" else None
+                return [{"op": "cfg_assign", "config": cfg}]
+            elif k == "rename":
+                m = rng.randint(1, min(3, len(names)))
+                old = rng.sample(names, m)
+                if m >= 2 and rng.random() < 0.4:   # a swap / rotation of names
+                    new = old[1:] + old[:1]
+                else:
+                    used = set(names)
+                    new = []
+                    for _ in old:
+                        n = self.gen_name(rng, used).replace("\x00", "0")
+                        new.append(n)
+                if len(set(new) | (set(names) - set(old))) != len(names):
+                    continue
+                ren = dict(zip(old, new))
+                st["names"][:] = [ren.get(n, n) for n in names]
+                st["calkeys"][:] = [ren.get(n, n) for n in ks]
+                st["npoints"] = {ren.get(n, n): v for n, v in st["npoints"].items()}
+                st["custom"] = {ren.get(n, n): v for n, v in st["custom"].items()}
+                return [{"op": "rename", "names": [[a, b] for a, b in zip(old, new)]}]
+            elif k == "add" and len(names) < 8:
+                used = set(names) | set(ks)
+                name = self.gen_name(rng, used).replace("\x00", "0")
+                if name in names or name in ks:
+                    continue
+                dtype = rng.choice(DTYPES)
+                if st["cfg"] == "srr" and dtype.startswith(">"):
+                    dtype = "<" + dtype[1:]
+                c = None if rng.random() < 0.3 else self.gen_cal(rng)
+                st["names"].append(name)
+                st["calkeys"].append(name)
+                st["npoints"][name] = 0 if c is None else len(c["points"])
+                st["custom"][name] = c is not None and not isinstance(c["weights"], str)
+                return [{"op": "add", "name": name, "dtype": dtype, "cal": c,
+                         "bits": [self.gen_bits(rng, dtype, st["size"]) for _ in range(st["nlayers"])]}]
+            elif k == "remove" and len(names) > 1:
+                gone = rng.sample(names, rng.randint(1, min(2, len(names) - 1)))
+                for n in gone:
+                    st["names"].remove(n)
+                    st["calkeys"].remove(n)
+                return [{"op": "remove", "names": gone, "as_str": rng.random() < 0.5}]
+            if only:
+                return []
+        return []
+
+    def gen_history(self, rng):
+        """constructor -> (calls) -> save/load -> calls -> save/load [-> go on with the loaded object -> calls -> save/load]"""
+        case = {"kind": "history", **self.gen_laser(rng, empty_cals=rng.random() < 0.1)}
+        if rng.random() < 0.2:
+            case["layout"] = rng.choice(LAYOUTS[3:])
+        self.distinct_cals(rng, case)
+        st = self.track(case)
+        steps = []
+        stems = ["laser", "a b", "x.y", "é中", "1", "other"]
+        cur_path = {"stem": rng.choice(stems), "suffix": ".npz", "as": rng.choice(["path", "str"])}
+
+        def ops(n):
+            for _ in range(n):
+                for o in self.gen_op(rng, st):
+                    steps.append({"step": "op", **o})
+                if rng.random() < 0.25:
+                    steps.append({"step": "read", "what": rng.choice(["to_array", "offsets", "extent", "get", "weights"])})
+
+        def save():
+            nonlocal cur_path
+            if rng.random() < 0.35:   # another file; sometimes a name that np.savez completes with '.npz'
+                cur_path = {"stem": rng.choice(stems), "suffix": rng.choice([".npz", ".npz", "", ".dat", ".npz.npz", ".NPZ"]),
+                            "as": rng.choice(["path", "str"])}
+            steps.append({"step": "save", "path": dict(cur_path)})
+
+        if rng.random() < 0.3:
+            ops(rng.randint(1, 2))
+        save()
+        for _ in range(rng.choice([1, 1, 1, 2])):
+            if rng.random() < 0.3:
+                steps.append({"step": "adopt"})
+                st["calkeys"][:] = list(st["names"])   # a loaded laser has its calibrations in element order
+                st["info"] = [k.replace("\t", " ") for k in st["info"] if k != "File Path"]
+                st["info"] = list(dict.fromkeys(st["info"] + ["Name", "File Path", "File Version"]))
+            ops(rng.choice([0, 1, 1, 1, 2, 2, 3, 4]))
+            save()
+        case["steps"] = steps
+        return case
+
     def gen_laser(self, rng, cls=None, old_layout=False, empty_cals=False):
         cls = cls or rng.choice(["laser", "laser", "spot", "srr", "srr"])
-        shape = [rng.choice([1, 1, 2, 3, 5]), rng.choice([1, 2, 3, 4, 7])]
+        shape = [rng.choice([1, 1, 2, 3, 5]), rng.choice([1, 2, 3, 4, 7])] if rng.random() < 0.97 else [rng.choice([9, 33, 64]), rng.choice([5, 17, 40])]
         nlayers = rng.choice([2, 2, 3, 4]) if cls == "srr" else 1
         nel = rng.choice([1, 1, 2, 2, 3, 4, 5, 6, 7, 8])
         used = set()
@@ -486,9 +956,10 @@ class C01(Prop):
                 while name in [e["name"] for e in elements]:
                     name += "_"
             dtype = rng.choice(DTYPES)
-            if cls == "srr" and dtype.startswith(">"):
+            if cls == "srr" and dtype.startswith(">") and rng.random() < 0.9:
                 # np.savez stacks the layer list into one native-byte-order array: byte order of SRR fields is
-                # not kept (values are).  Outside the stated quantifier (float/int dtypes); targeted case only.
+                # not kept (values are): known finding C01-srr-byteorder, modelled (`dataToArray`), outside `Laser.ok`;
+                # the few that are generated are compared with the model only
                 dtype = "<" + dtype[1:]
             elements.append({"name": name, "dtype": dtype, "bits": [self.gen_bits(rng, dtype, size) for _ in range(nlayers)]})
         idx = list(range(nel))
@@ -519,11 +990,20 @@ class C01(Prop):
                     "elements": [{"name": "A", "dtype": "<f8", "bits": [[t(1.5)], [t(2.5)]]}], "cals": [], "config": cfg,
                     "info": [], "stem": "laser", "chain": rng.choice([1, 2, 3])}
         r = rng.random()
+        if 0.4 <= r < 0.65:
+            return self.gen_history(rng)
         kind = "layouts" if r < 0.3 else "crossclass" if r < 0.4 else "roundtrip"
         case = {"kind": kind, **self.gen_laser(rng, old_layout=(kind == "layouts"), empty_cals=rng.random() < 0.15)}
         case["stem"] = rng.choice(["laser", "a b", "x.y", "é中", "1"])
         if kind != "crossclass" and rng.random() < 0.02:  # a laser without elements: save raises, the old layouts load
             case["elements"], case["cals"] = [], []
+        if len(case["elements"]) >= 2 and rng.random() < 0.35:
+            # the calibration dict lists the elements in another order than the data (entries popped and re-inserted, the
+            # dict reassigned, the image replaced by one with reordered fields), every element with its own calibration
+            self.distinct_cals(rng, case)
+            case["pre"] = self.gen_order_ops(rng, self.track(case))
+        if rng.random() < 0.2:
+            case["layout"] = rng.choice(LAYOUTS[3:])
         if kind == "crossclass":
             # the header of the saved file names another class (or an unknown one) than the config member is of
             case["as_cls"] = rng.choice(CLASS_NAMES)
@@ -533,6 +1013,7 @@ class C01(Prop):
             case["v06"] = rng.choice(V06_OK if rng.random() < 0.7 else V_REJECT + V06_OFF)
             case["v07"] = rng.choice(V07_OK if rng.random() < 0.7 else V_REJECT + V07_OFF)
             case["legacy_class"] = rng.random() < 0.4
+            case["resave"] = rng.random() < 0.5
         return case
 
     # ------------------------------------------------------------------ deterministic boundary cases
@@ -569,7 +1050,9 @@ class C01(Prop):
         lay = {**base, "kind": "layouts", "v06": "0.6.0", "v07": "0.7.0", "legacy_class": False, "cals": [[0, calx]], "info": [["Name", "n"], ["k", "v\tw"]]}
         del lay["chain"]
         yield lay
+        yield {**lay, "resave": True}
         yield {**lay, "v06": "0.6.12", "v07": "0.7.10", "legacy_class": True}
+        yield {**lay, "v06": "0.6.12", "v07": "0.7.10", "legacy_class": True, "resave": True, "info": [["File Version", "x"], ["a\tb", "c"]]}
         yield {**lay, "v06": "0.5.9"}    # rejected: older than 0.6.0
         yield {**lay, "v06": "0.5.12", "info": []}
         yield {**lay, "cls": "srr", "shapes": [[1, 2], [1, 2]], "elements": [el("A", bits=[[1, 2], [3, 4]])], "config": srr, "legacy_class": True}
@@ -625,6 +1108,86 @@ class C01(Prop):
         yield {**two, "shapes": [[1, 3]], "elements": [el("A", bits=[[1, 2, 3]])], "as_cls": "SRR"}   # one row: SRRLaser asserts
         yield {**two, "config": {**raster, "scantime": t(0.1)}, "as_cls": "SRR"}                       # 12.5 / 0.1 in floats
         yield {**two, "config": {**raster, "scantime": t(0.0)}, "as_cls": "SRR", "excluded": "unmodelled"}
+        # ---- the calibration dict in another order than the data fields: first entry moved to the end, the dict
+        # reassigned in reverse, an entry replaced by a re-fit, the image replaced by one with rotated fields — in the
+        # current layout (two generations), in the 0.6 / 0.7 layouts and with another class name in the header
+        ca = {**cal0, "intercept": t(0.5), "gradient": t(2.0), "unit": "ppm", "points": [[t(0.0), t(1.0)], [t(1.0), t(3.0)], [t(2.0), t(5.5)]], "weights": "1/x"}
+        cb = {**cal0, "intercept": t(-1.25), "gradient": t(4.0), "unit": "ppb", "points": [[t(1.0), t(2.0)], [NAN_Q, t(4.0)]], "weights": "Equal"}
+        cc = {**cal0, "intercept": t(3.0), "gradient": t(0.125), "unit": "ug/g", "weights": "x"}
+        cd = {**cal0, "intercept": t(7.0), "unit": "re-fit", "points": [[t(1.0), t(1.0)]], "weights": {"name": "w", "values": [t(2.0)]}}
+        abc = ["Fe56", "Zn66", "P31"]
+        orders = {
+            "move_end": [{"op": "cal_move_end", "key": "Fe56"}],
+            "reversed": [{"op": "cal_reorder", "order": abc[::-1]}],
+            "pop_set": [{"op": "cal_pop", "key": "Zn66"}, {"op": "cal_set", "key": "Zn66", "cal": cd}],
+            "data_rotated": [{"op": "data_reorder", "order": abc[1:] + abc[:1]}],
+            "swap_two_of_two": None,
+        }
+        spotc = {"class": "spot", "spotsize": t(10.0), "spotsize_y": t(20.0)}
+        for how, pre in orders.items():
+            for cls, cfg, shapes, n in (("laser", raster, [[1, 2]], 1), ("spot", spotc, [[1, 2]], 1), ("srr", srr, [[1, 2], [1, 2]], 2)):
+                if pre is None:
+                    els3 = [el(nm, bits=[[i + 1, i + 5]] * n) for i, nm in enumerate(abc[:2])]
+                    cs, ops_ = [[0, ca], [1, cb]], [{"op": "cal_move_end", "key": "Fe56"}]
+                else:
+                    els3 = [el(nm, bits=[[i + 1, i + 5]] * n) for i, nm in enumerate(abc)]
+                    cs, ops_ = [[0, ca], [1, cb], [2, cc]], pre
+                b3 = {**base, "cls": cls, "config": cfg, "shapes": shapes, "elements": els3, "cals": cs, "pre": ops_}
+                yield {**b3, "chain": 2}
+                l3 = {**b3, "kind": "layouts", "v06": "0.6.0", "v07": "0.7.0", "legacy_class": cls == "srr", "info": [["Name", "n"]]}
+                del l3["chain"]
+                yield l3
+            yield {**base, "kind": "crossclass", "shapes": [[1, 2]], "elements": [el(nm, bits=[[i + 1, i + 5]]) for i, nm in enumerate(abc)],
+                   "cals": [[0, ca], [1, cb], [2, cc]], "pre": pre or orders["move_end"], "as_cls": "Laser"}
+        # ---- histories: save, one call of every public mutator, save again (and the same on the object the first load
+        # returned); every load is judged against the state at its save
+        pth = {"stem": "laser", "suffix": ".npz", "as": "path"}
+        sv = {"step": "save", "path": pth}
+        common = [
+            {"op": "cal_set", "key": "Fe56", "cal": cd}, {"op": "cal_move_end", "key": "Fe56"},
+            {"op": "cal_reorder", "order": ["Zn66", "Fe56"]},
+            {"op": "cal_edit", "key": "Fe56", "edit": {"what": "intercept", "value": t(9.0)}},
+            {"op": "cal_edit", "key": "Fe56", "edit": {"what": "gradient", "value": t(-0.0)}},
+            {"op": "cal_edit", "key": "Zn66", "edit": {"what": "unit", "value": "µg/g"}},
+            {"op": "cal_edit", "key": "Fe56", "edit": {"what": "rsq", "value": t(0.5)}},
+            {"op": "cal_edit", "key": "Fe56", "edit": {"what": "error", "value": None}},
+            {"op": "cal_edit", "key": "Zn66", "edit": {"what": "points", "value": [[t(1.0), NAN_Q], [t(2.0), t(3.0)], [t(4.0), t(5.0)]]}},
+            {"op": "cal_edit", "key": "Fe56", "edit": {"what": "weighting", "value": "1/(y^2)"}},
+            {"op": "cal_edit", "key": "Fe56", "edit": {"what": "custom", "name": "mine", "value": [t(1.0), NAN_Q, t(3.0)]}},
+            {"op": "info_set", "key": "Operator", "value": "x\ty"}, {"op": "info_set", "key": "Name", "value": "renamed"},
+            {"op": "info_pop", "key": "k"}, {"op": "info_assign", "items": [["a\tb", "1"], ["a b", "2"]]},
+            {"op": "cfg", "what": "spotsize", "value": t(12.5)},
+            {"op": "rename", "names": [["Fe56", "Fe57"]]}, {"op": "rename", "names": [["Fe56", "Zn66"], ["Zn66", "Fe56"]]},
+            {"op": "remove", "names": ["Fe56"], "as_str": True}, {"op": "remove", "names": ["Zn66"], "as_str": False},
+            {"op": "data_reorder", "order": ["Zn66", "Fe56"]},
+        ]
+        per_cls = {
+            "laser": [{"op": "cfg", "what": "speed", "value": t(70.0)}, {"op": "cfg", "what": "scantime", "value": t(0.1)},
+                      {"op": "cfg_assign", "config": spotc}, {"op": "cfg_assign", "config": {**raster, "speed": t(1.0)}}],
+            "spot": [{"op": "cfg", "what": "spotsize_y", "value": t(0.3)}, {"op": "cfg_assign", "config": raster}],
+            "srr": [{"op": "cfg", "what": "speed", "value": t(70.0)}, {"op": "cfg", "what": "scantime", "value": t(0.3)},
+                    {"op": "cfg", "what": "warmup", "value": t(4.3)}, {"op": "cfg", "what": "warmup", "value": t(0.0)},
+                    {"op": "cfg", "what": "offsets", "value": [[0, 3], [2, 3]], "as_array": False},
+                    {"op": "cfg", "what": "offsets", "value": [[0, 2], [1, 3], [3, 4]], "as_array": True},
+                    {"op": "cfg", "what": "equal_offsets", "value": 3}, {"op": "cfg", "what": "equal_offsets", "value": 1},
+                    {"op": "cfg_assign", "config": {**srr, "scantime": t(0.5), "warmup": t(2.0), "offsets": [[1, 4], [3, 4]]}}],
+        }
+        for cls, cfg, shapes, n in (("laser", raster, [[1, 2]], 1), ("spot", spotc, [[1, 2]], 1), ("srr", srr, [[1, 2], [1, 2]], 2)):
+            h = {"kind": "history", "cls": cls, "shapes": shapes, "config": cfg, "info": [["k", "v"], ["Name", "n"]],
+                 "elements": [el("Fe56", bits=[[1, 5]] * n), el("Zn66", "<i4", [[2, 6]] * n)], "cals": [[0, ca], [1, cb]]}
+            adds = [{"op": "add", "name": "P31", "dtype": "<f4", "bits": [[3, 7]] * n, "cal": cc},
+                    {"op": "add", "name": "new", "dtype": "<u2", "bits": [[3, 7]] * n, "cal": None}]
+            for op in common + per_cls[cls] + adds:
+                o = {"step": "op", **op}
+                yield {**h, "steps": [sv, o, sv]}
+                if op["op"] == "info_pop":   # a loaded laser has lost nothing but gained keys
+                    o = {"step": "op", "op": "info_pop", "key": "File Version"}
+                yield {**h, "steps": [sv, {"step": "adopt"}, o, sv]}
+            # three files of one object, reads in between, names that np.savez completes with '.npz'
+            o1, o2 = per_cls[cls][0], common[5]
+            yield {**h, "steps": [sv, {"step": "read", "what": "to_array"}, {"step": "op", **o1},
+                                  {"step": "save", "path": {"stem": "other", "suffix": "", "as": "str"}}, {"step": "read", "what": "get"},
+                                  {"step": "op", **o2}, {"step": "save", "path": {"stem": "x.y", "suffix": ".dat", "as": "path"}}]}
         # known findings (targeted only)
         yield {**base, "cls": "srr", "shapes": [[1, 2], [2, 1]], "elements": [{"name": "A", "dtype": "<f8", "bits": [[1, 2], [3, 4]]}],
                "config": srr, "expect_known": "C01-srr-unequal-layers-unsaveable"}
@@ -632,6 +1195,13 @@ class C01(Prop):
         yield {**base, "elements": [el("A\x00")], "expect_known": "C01-trailing-nul"}
         yield {**base, "cals": [[0, {**cal0, "unit": "u\x00"}]], "expect_known": "C01-trailing-nul"}
         yield {**base, "cals": [[0, {**cal0, "weights": {"name": "w\x00", "values": []}}]], "expect_known": "C01-trailing-nul"}
+        # SRR layers of different field dtypes: np.savez stacks them into one array of the promoted dtype, the '<f4' layer
+        # loads as '<f8' (same root as C01-srr-byteorder).  Found in extension round E; the case is run as soon as
+        # known_findings.json has an entry with this id (text in notes/EC01.md), until then it is only described there
+        if "C01-srr-layer-dtypes" in self.known_ids():
+            yield {**base, "cls": "srr", "shapes": [[1, 1], [1, 1]], "config": srr,
+                   "elements": [{"name": "A", "dtype": "<f8", "dtypes": ["<f8", "<f4"], "bits": [[t(1.5)], [1069547520]]}],
+                   "expect_known": "C01-srr-layer-dtypes"}
         # outside the quantifier (6a): evaluated, counted as undetermined
         yield {**base, "cals": [[0, {**cal0, "points": [[NAN_Q, NAN_Q], [t(1.0), t(2.0)]], "weights": "x"}]], "excluded": "fully-NaN row"}
         yield {**base, "cals": [[0, {**cal0, "points": [[NAN_Q, NAN_Q], [t(1.0), t(2.0)]], "weights": "Equal"}]], "excluded": "fully-NaN row"}
@@ -717,7 +1287,15 @@ class C01(Prop):
                 f.add("cal:rsq-None")
         if len(lens) > 1:
             f.add("cal:differing-lengths")
+        if sh[0] * sh[1] > 35:
+            f.add("shape:large")
+        if any(len(c["points"]) >= 20 for _, c in case["cals"]):
+            f.add("cal:points>=20")
         info = case["info"]
+        if len(info) >= 20:
+            f.add("info:many-entries")
+        if any(len(k) >= 100 or len(v) >= 500 for k, v in info):
+            f.add("info:long-string")
         if not info:
             f.add("info:empty")
         ks = [k for k, _ in info]
@@ -743,7 +1321,43 @@ class C01(Prop):
             f.add(f"srr:layers={len(case['shapes'])}")
         if not case["elements"]:
             f.add("elements:none")
-        if case["kind"] == "roundtrip":
+        if case.get("layout", "C") != "C":
+            f.add("layout:" + case["layout"])
+        if case.get("pre"):
+            f.add("calorder")
+            f.add("calorder:kind:" + case["kind"])
+            f.add("calorder:cls:" + case["cls"])
+            for op in case["pre"]:
+                f.add("calorder:" + op["op"])
+        if case["kind"] == "history":
+            ops_seen = False
+            saves = 0
+            prev = None
+            for st in case["steps"]:
+                if st["step"] == "op":
+                    o = st["op"]
+                    f.add("hist:op:" + o + (":" + st["what"] if o == "cfg" else ":" + st["edit"]["what"] if o == "cal_edit" else ""))
+                    if saves == 0:
+                        f.add("hist:op-before-first-save")
+                    else:
+                        f.add("hist:op-after-save")
+                    ops_seen = True
+                elif st["step"] == "read":
+                    f.add("hist:read:" + st["what"])
+                elif st["step"] == "adopt":
+                    f.add("hist:adopt")
+                else:
+                    saves += 1
+                    pth = st["path"]
+                    f.add("hist:path:suffix=" + repr(pth["suffix"]))
+                    f.add("hist:path:as-" + pth["as"])
+                    if prev is not None:
+                        f.add("hist:path:same-file" if (pth["stem"], pth["suffix"]) == prev else "hist:path:other-file")
+                    prev = (pth["stem"], pth["suffix"])
+            f.add(f"hist:saves={saves}")
+            if not ops_seen:
+                f.add("hist:no-op")
+        elif case["kind"] == "roundtrip":
             f.add(f"chain:{case['chain']}")
         elif case["kind"] == "crossclass":
             f.add(f"crossclass:{cfg['class']}->{case['as_cls']!r}")
@@ -757,6 +1371,8 @@ class C01(Prop):
                     f.add(f"{k}:non-numeric-tail")
             f.add("v06:" + case["v06"])
             f.add("v07:" + case["v07"])
+            if case.get("resave"):
+                f.add("old-layout-resaved")
             if case["legacy_class"]:
                 f.add("legacy-class-name")
         return f
@@ -765,14 +1381,28 @@ class C01(Prop):
         from pewlib.io import npz
 
         tmp = ctx.tmpdir()
+        if case["kind"] == "history":
+            return self.evaluate_history(case, ctx, tmp)
         path = tmp / (case["stem"] + ".npz")
         with warnings.catch_warnings():
             warnings.simplefilter("ignore")
             obj = build_laser(case)
-        desc = desc_laser(obj, True)
+        desc = desc_laser(obj, True)      # the object as constructed; the operations of `pre` are applied by the model
         pinfo = {"stem": cps(path.stem), "resolved": cps(str(path.resolve()))}
         ver = cps(dist_version("pewlib"))
         feats = self.features(case, obj)
+        pre = case.get("pre", [])
+        with warnings.catch_warnings():
+            warnings.simplefilter("ignore")
+            try:
+                for op in pre:
+                    apply_op_real(obj, op)
+            except core.InternalError:
+                raise
+            except Exception as e:  # noqa: BLE001  a call that is not valid for this object (a shrunk case): nothing to judge
+                return outcome(None, None, None, spec_ok=True, model_ok=True, hyp=False, undetermined=True,
+                               features={"excluded:operation-raises"}, note=type(e).__name__)
+        pre_enc = [enc_op(op) for op in pre]
 
         if case["kind"] == "roundtrip":
             def run():
@@ -782,8 +1412,12 @@ class C01(Prop):
                     cur = npz.load(path)
                 return cur
 
+            rep = ctx.driver.call("c01.roundtrip", laser=desc, path=pinfo, version=ver, time=cps("0.0"), chain=case["chain"],
+                                  pre=pre_enc)
+            if rep.get("pre_failed"):
+                return outcome(None, None, None, spec_ok=True, model_ok=True, hyp=False, undetermined=True,
+                               features={"excluded:operation-not-modelled"})
             impl = observe(run, obj)
-            rep = ctx.driver.call("c01.roundtrip", laser=desc, path=pinfo, version=ver, time=cps("0.0"), chain=case["chain"])
             model, spec = canon_reply(rep["model"]), canon_reply(rep["spec"])
         elif case["kind"] == "crossclass":
             def run_cross():
@@ -791,7 +1425,11 @@ class C01(Prop):
                 gen_npz.rewrite_header_class(path, case["as_cls"])
                 return npz.load(path)
 
-            rep = ctx.driver.call("c01.crossclass", laser=desc, path=pinfo, version=ver, time=cps("0.0"), cls=cps(case["as_cls"]))
+            rep = ctx.driver.call("c01.crossclass", laser=desc, path=pinfo, version=ver, time=cps("0.0"), cls=cps(case["as_cls"]),
+                                  pre=pre_enc)
+            if rep.get("pre_failed"):
+                return outcome(None, None, None, spec_ok=True, model_ok=True, hyp=False, undetermined=True,
+                               features={"excluded:operation-not-modelled"})
             model = canon_reply(rep["model"])
             if model.get("raises") == "Unmodelled":  # the loaded object has no description in the model's terms
                 return outcome(None, model, None, spec_ok=True, model_ok=True, hyp=False, undetermined=True,
@@ -812,33 +1450,159 @@ class C01(Prop):
                 npz.save(path, obj)
                 return npz.load(path)
 
+            rep = ctx.driver.call("c01.layouts", laser=desc, path=pinfo, version=ver, time=cps("0.0"),
+                                  v06=cps(case["v06"]), v07=cps(case["v07"]), legacy_class=bool(case["legacy_class"]), pre=pre_enc)
+            if rep.get("pre_failed"):
+                return outcome(None, None, None, spec_ok=True, model_ok=True, hyp=False, undetermined=True,
+                               features={"excluded:operation-not-modelled"})
+            def run_old_resave(layout, version):
+                def f():   # an old file brought up to date: load it, save the loaded object, load again
+                    gen_npz.write_old(path, obj, version, layout, legacy_class=case["legacy_class"])
+                    old = npz.load(path)
+                    npz.save(path, old)
+                    return npz.load(path)
+                return f
+
             impl = {"v06": observe(run_old("0.6", case["v06"]), obj), "v07": observe(run_old("0.7", case["v07"]), obj),
                     "v08": observe(run_new, obj)}
-            rep = ctx.driver.call("c01.layouts", laser=desc, path=pinfo, version=ver, time=cps("0.0"),
-                                  v06=cps(case["v06"]), v07=cps(case["v07"]), legacy_class=bool(case["legacy_class"]))
-            model = {k: canon_reply(v) for k, v in rep["model"].items()}
-            spec = {k: canon_reply(v) for k, v in rep["spec"].items()}
+            keys = ["v06", "v07", "v08"]
+            if case.get("resave"):
+                impl["v06r"] = observe(run_old_resave("0.6", case["v06"]), obj)
+                impl["v07r"] = observe(run_old_resave("0.7", case["v07"]), obj)
+                keys += ["v06r", "v07r"]
+            model = {k: canon_reply(rep["model"][k]) for k in keys}
+            spec = {k: canon_reply(rep["spec"][k]) for k in keys if k in ("v06", "v07", "v08") or rep["hyp_resave"]}
         note = ""
         if isinstance(impl, dict) and "raises" in impl:
             note = impl.get("msg", "")
         impl_c = {k: strip_msg(v) for k, v in impl.items()} if case["kind"] == "layouts" else strip_msg(impl)
-        hyp = bool(rep["hyp"])
-        if case["cls"] == "srr" and any(e["dtype"].startswith(">") for e in case["elements"]):
-            hyp = False
+        hyp = bool(rep["hyp"])   # false for an SRR laser with a non-native field: the model stacks the layers as NumPy does
         excluded = (not hyp) and not case.get("expect_known")
         if excluded:
             # outside the theorems' hypotheses: no specification; the implementation is still compared with the model
             feats = set(feats) | {"excluded:" + str(case.get("excluded", "hypothesis"))}
             return outcome(impl_c, model, None, spec_ok=True, hyp=False, features=feats, note=note)
+        if case["kind"] == "layouts":   # the re-saved generations are judged only under their own hypotheses
+            return outcome(impl_c, model, spec, hyp=hyp, features=feats, note=note,
+                           spec_ok=all(core.canon(impl_c[k]) == core.canon(v) for k, v in spec.items()))
         return outcome(impl_c, model, spec, hyp=hyp, features=feats, note=note)
 
+    @staticmethod
+    def swapped_fields(case):
+        """does an element (of the constructor call or added later) have a non-native byte order?"""
+        dts = [e["dtype"] for e in case["elements"]]
+        for st in list(case.get("pre", [])) + [x for x in case.get("steps", []) if x.get("step") == "op"]:
+            if st.get("op") == "add":
+                dts.append(st["dtype"])
+        return any(d.startswith(">") for d in dts)
+
+    @staticmethod
+    def paths_of(tmp, pth):
+        """the argument handed to `npz.save` and the file that call writes (`np.savez` completes a name that does not
+        end in '.npz')"""
+        from pathlib import Path
+
+        name = pth["stem"] + pth["suffix"]
+        arg = tmp / name
+        written = arg if name.endswith(".npz") else Path(str(arg) + ".npz")
+        return (str(arg) if pth["as"] == "str" else arg), (str(written) if pth["as"] == "str" else written), written
+
+    def evaluate_history(self, case, ctx, tmp):
+        from pewlib.io import npz
+
+        with warnings.catch_warnings():
+            warnings.simplefilter("ignore")
+            obj = build_laser(case)
+        els = case["elements"]
+        layers = list(obj.data) if case["cls"] == "srr" else [obj.data]
+        feats = self.features(case, obj)
+        skip = lambda why: outcome(None, None, None, spec_ok=True, model_ok=True, hyp=False, undetermined=True,  # noqa: E731
+                                   features={"excluded:" + why})
+        floats = [case["config"][k] for k in ("scantime", "warmup") if case["config"]["class"] == "srr"]
+        for st in case["steps"]:
+            if st.get("op") == "cfg" and st["what"] == "warmup":
+                floats.append(st["value"])
+            if st.get("op") == "cfg_assign" and st["config"]["class"] == "srr":
+                floats += [st["config"]["scantime"], st["config"]["warmup"]]
+        if not all(math.isfinite(tokf(x)) for x in floats):   # no exact rational to hand to the model
+            return skip("non-finite-srr-parameter")
+        steps_enc = []
+        for st in case["steps"]:
+            if st["step"] == "op":
+                steps_enc.append({"step": "op", **enc_op(st)})
+            elif st["step"] == "save":
+                _, _, written = self.paths_of(tmp, st["path"])
+                steps_enc.append({"step": "save", "path": {"stem": cps(written.stem), "resolved": cps(str(written.resolve()))}})
+            elif st["step"] == "adopt":
+                steps_enc.append({"step": "adopt"})
+        # the state of the object is tracked by the model from the constructor arguments and the calls; nothing is read
+        # back from the pewlib object
+        rep = ctx.driver.call(
+            "c01.history", kind="srr" if case["cls"] == "srr" else "laser", fields=desc_fields(layers[0]),
+            layers=[desc_layer(a) for a in layers], cal=[[cps(els[i]["name"]), enc_cal(c)] for i, c in case["cals"]],
+            config=enc_cfg_args(case["config"]), info=[[cps(k), cps(v)] for k, v in case["info"]],
+            version=cps(dist_version("pewlib")), time=cps("0.0"), steps=steps_enc)
+        if rep["ctor"] != "ok" or rep["op_failed"]:
+            return skip("operation-not-modelled")
+        if not rep["determined"]:
+            return skip("warmup-at-rounding-tie")
+
+        impl = []
+        cur, last, op_error = obj, None, None
+        with warnings.catch_warnings():
+            warnings.simplefilter("ignore")
+            for st in case["steps"]:
+                if st["step"] == "op":
+                    try:
+                        apply_op_real(cur, st)
+                    except core.InternalError:
+                        raise
+                    except Exception as e:  # noqa: BLE001
+                        op_error = type(e).__name__
+                        break
+                elif st["step"] == "read":
+                    read_real(cur, st["what"])
+                elif st["step"] == "adopt":
+                    if last is None:
+                        op_error = "adopt-before-save"
+                        break
+                    cur = last
+                else:
+                    arg, load_arg, _ = self.paths_of(tmp, st["path"])
+                    try:
+                        npz.save(arg, cur)
+                        last = npz.load(load_arg)
+                    except Exception as e:  # noqa: BLE001
+                        impl.append({"raises": type(e).__name__})
+                        break
+                    d = desc_laser(last, False)
+                    d["same_container"] = type(last.data) is type(cur.data)
+                    impl.append({"ok": d})
+        if op_error is not None:   # a call that is not valid for this object (a shrunk case): nothing to judge
+            return skip("operation-raises")
+        model = [canon_reply(r) for r in rep["model"]]
+        oks = [bool(b) for b in rep["oks"]]
+        hyp = bool(oks) and all(oks) and len(oks) == len(rep["spec"])
+        spec = [canon_reply(r) if (i < len(oks) and oks[i]) else None for i, r in enumerate(rep["spec"])]
+        # every load is judged against the specification of the state the object had when it was saved
+        spec_ok = all(sp is None or (i < len(impl) and core.canon(impl[i]) == core.canon(sp)) for i, sp in enumerate(spec))
+        if not hyp:
+            feats = set(feats) | {"excluded:" + str(case.get("excluded", "hypothesis"))}
+        return outcome(impl, model, spec, spec_ok=spec_ok, hyp=hyp, features=feats)
+
     # ------------------------------------------------------------------ known findings
+    @staticmethod
+    def known_ids():
+        return {k["id"] for k in core.load_known() if k.get("property") == "C01" and k.get("kind") == "known"}
+
     def known(self, case, out):
+        if case.get("cls") == "srr" and any("dtypes" in e and len(set(e["dtypes"])) > 1 for e in case["elements"]):
+            return "C01-srr-layer-dtypes"
         if case.get("cls") == "srr" and len({tuple(s) for s in case["shapes"]}) > 1:
             imp = out["impl"]
             if isinstance(imp, dict) and imp.get("raises") == "ValueError":
                 return "C01-srr-unequal-layers-unsaveable"
-        if case.get("cls") == "srr" and any(e["dtype"].startswith(">") for e in case["elements"]):
+        if case.get("cls") == "srr" and self.swapped_fields(case):
             return "C01-srr-byteorder"
         nul = any(e["name"].endswith("\x00") for e in case["elements"])
         for _, c in case["cals"]:
@@ -853,6 +1617,22 @@ class C01(Prop):
     # ------------------------------------------------------------------ shrinking
     def shrink(self, case):
         els = case["elements"]
+        if case["kind"] == "history":
+            steps = case["steps"]
+            nsave = sum(1 for x in steps if x["step"] == "save")
+            for i in range(len(steps)):
+                if steps[i]["step"] == "save" and nsave == 1:
+                    continue
+                yield {**case, "steps": steps[:i] + steps[i + 1:]}
+            for i, x in enumerate(steps):
+                if x["step"] == "save" and (x["path"]["suffix"] != ".npz" or x["path"]["as"] != "path"):
+                    yield {**case, "steps": steps[:i] + [{**x, "path": {**x["path"], "suffix": ".npz", "as": "path"}}] + steps[i + 1:]}
+        if case.get("pre"):
+            pre = case["pre"]
+            for i in range(len(pre)):
+                yield {**case, "pre": pre[:i] + pre[i + 1:]}
+        if case.get("layout", "C") != "C":
+            yield {**case, "layout": "C"}
         if case.get("chain", 1) > 2:
             yield {**case, "chain": 2}
         if len(els) > 1:
